@@ -106,12 +106,14 @@ NODE_CLASS = {"maroon": "depleted", "darkgreen": "accumulated", "black": "other"
 EDGE_CLASS = {"maroon": "reactant", "darkgreen": "product"}
 
 
-def parse_dot(lines):
+def parse_dot(lines, colors=("maroon", "darkgreen")):
     """list of DOT lines -> {snodes: [...], rnodes: [...], edges: {"a->b": [label, kind]}}"""
     toks = [ln.rstrip("\n") for ln in lines]
     if not toks or not toks[0].startswith("digraph ") or not toks[0].endswith("{") or toks[-1] != "}":
         return _bad("dot frame")
     snodes, rnodes, edges = [], [], {}
+    NODE_CLASS = {colors[0]: "depleted", colors[1]: "accumulated", "black": "other"}   # the colours the caller passed
+    EDGE_CLASS = {colors[0]: "reactant", colors[1]: "product"}
     i = 1
     while i < len(toks) - 1:
         ln = toks[i]
@@ -222,9 +224,13 @@ class World(object):
         comp = h.get("comp") or {}
         given, mode = h["given"], h["mode"]
 
-        def sub(name):
+        opt = h.get("opt") or {"sort": "default", "addmissing": False, "chk": "default"}
+        alias = bool(opt.get("alias"))
+
+        def sub(key):
+            name = ("n_" + key) if alias else key     # alias: the mapping key differs from Substance.name
             if comp:
-                return self.Substance(name, composition={int(k): v for k, v in comp[name].items()})
+                return self.Substance(name, composition={int(k): v for k, v in comp[key].items()})
             return self.Substance(name)
         if mode == "deduce":
             substances = None
@@ -243,7 +249,6 @@ class World(object):
             rxns = tuple(rxns)
         else:
             raise core.MachineryFailure("unknown mode %r" % (mode,))
-        opt = h.get("opt") or {"sort": "default", "addmissing": False, "chk": "default"}
         kw = {}
         if opt["sort"] != "default":
             kw["sort_substances"] = opt["sort"] == "yes"
@@ -380,7 +385,13 @@ class World(object):
                        col=_int_nested(col.tolist()))
         if kind == "dot":
             from chempy.util.graph import rsys2dot
-            return parse_dot(rsys2dot(sys_, rref0=arg["rref0"], include_inactive=bool(arg["inact"])))
+            kw = {}
+            colors = ("maroon", "darkgreen")
+            if arg.get("rprefix", "r") != "r":
+                kw["rprefix"] = arg["rprefix"]
+            if arg.get("colors") == "custom":
+                colors = kw["colors"] = ("red", "blue")
+            return parse_dot(rsys2dot(sys_, rref0=arg["rref0"], include_inactive=bool(arg["inact"]), **kw), colors)
         if kind == "subset":
             proj, _ = self._subset(i, arg)
             if proj is None:
@@ -409,12 +420,18 @@ class World(object):
                        refused={"unk": _refused(lambda: sys_.as_per_substance_array(d_extra, raise_on_unk=True), KeyError),
                                 "size": _refused(lambda: sys_.as_per_substance_array(a + [1]), ValueError),
                                 "missing": _refused(lambda: sys_.as_per_substance_array(d_short), KeyError)},
-                       idxint=[_int(sys_.as_substance_index(k)) for k in range(len(sys_.substances))])
+                       idxint=[_int(sys_.as_substance_index(k)) for k in range(len(sys_.substances))],
+                       **self._conv_more(sys_, d, a))
         if kind == "bounds":
             conc = {s: v / float(arg["den"]) for s, v in arg["c"].items()}
-            if arg["form"] == "list":
-                conc = [conc[s] for s in sys_.substances]
             kw = {}
+            if arg["form"] in ("list", "array"):
+                conc = [conc[s] for s in sys_.substances]
+                if arg["form"] == "array":
+                    import numpy as np
+                    conc = np.array(conc)
+            elif arg["form"] == "minfn":
+                kw["min_"] = lambda seq: sorted(seq)[0]    # a caller-supplied minimum function
             if list(arg["skip"]) != ["0"]:      # ["0"] is the default skip_keys=(0,)
                 kw["skip_keys"] = tuple(int(k) for k in arg["skip"])
             ub = [_q(x) for x in sys_.upper_conc_bounds(conc, **kw)]
@@ -424,9 +441,29 @@ class World(object):
         if kind == "yields":
             from chempy.util.stoich import decompose_yields
             y = OrderedDict((s, arg["y"][s] / float(arg["den"])) for s in arg["korder"])
-            k = decompose_yields(y, sys_.rxns)
+            k = decompose_yields(y, sys_.rxns, **({"atol": 1e-6} if arg.get("atol") == "loose" else {}))
             return _ok(k=[_q_round(x) for x in k])
         raise core.MachineryFailure("unknown query %r" % (kind,))
+
+    def _conv_more(self, sys_, d, a):
+        import numpy as np
+        a2 = np.array([a, [x + 1 for x in a]], dtype=float)
+        before = a2.copy()
+
+        def f_var0():
+            v0, k0 = sys_.per_substance_varied(d)          # nothing varied
+            return {"keys": list(k0), "arr": _int_nested(np.asarray(v0).tolist())}
+        # each extra call is observed on its own (first failure named in `fault`)
+        o = dict(arrint=_call(lambda: [_int(x) for x in sys_.as_per_substance_array(d, dtype="int64")]),
+                 arr2d=_call(lambda: _int_nested(np.asarray(sys_.as_per_substance_array(a2)).tolist())),
+                 varied0=_call(f_var0), fault="")
+        o["argkept"] = bool((a2 == before).all())
+        for fld in ("arrint", "arr2d", "varied0"):
+            if isinstance(o[fld], str):
+                if not o["fault"]:
+                    o["fault"] = "%s:%s" % (fld, o[fld])
+                o[fld] = []
+        return o
 
     def query2(self, h):
         a, b = self.ws[h["i"] - 1], self.ws[h["j"] - 1]
@@ -463,7 +500,15 @@ class World(object):
         if fn is None:
             raise core.MachineryFailure("unknown operation %r" % (h,))
         try:
-            return _sanitize(fn(h))
+            o = _sanitize(fn(h))
+            if not o["raised"] and not o["bad"] and not (h["op"] == "QueryCat" or h.get("kind") == "concat"):
+                # frame: every system as it is after the step (concatenate updates its first argument: not listed)
+                o["all"] = [{"ss": list(w.substances.keys()),
+                             "rx": [{"reac": dict(r.reac), "prod": dict(r.prod), "ireac": dict(r.inact_reac),
+                                     "iprod": dict(r.inact_prod), "name": r.name or ""} for r in w.rxns]}
+                            for w in self.ws]
+                o = _sanitize(o)
+            return o
         except core.MachineryFailure:
             raise
         except Exception as exc:
@@ -513,7 +558,7 @@ def disagreement(h, o, exp):
     if o.get("fault"):
         return "%s:%s" % (exp["kind"], o["fault"].split(":")[0])
     for k in o:
-        if k in ("raised", "exc", "bad", "fault"):
+        if k in ("raised", "exc", "bad", "fault", "all"):
             continue
         if k == "eq" and exp["kind"] == "graph" and not x["eqdef"]:
             continue
@@ -555,7 +600,10 @@ def _judge_traces(ctx, items, direction):
         if clause.startswith("model:"):
             raise core.MachineryFailure("recorded trace outside the model: %s at %d: %r" % (clause, pos, tr[:pos]))
         e = tr[pos - 1]
-        ctx.violation({"fn": FN.get(e.get("kind") if (e["op"].startswith("Query") or e["op"] == "Peek") else e["op"], e["op"]), "clause": clause},
+        key = {"fn": FN.get(e.get("kind") if (e["op"].startswith("Query") or e["op"] == "Peek") else e["op"], e["op"]), "clause": clause}
+        if isinstance(e.get("obs", {}).get("names"), list):
+            key["ns"] = len(e["obs"]["names"])
+        ctx.violation(key,
                       {"direction": direction, "trace": tr, "observed": e["obs"],
                        "verdict": {"verdict": v, "pos": pos, "clause": clause}, "tlc_cfg": "RSysGraphTrace.cfg"})
 
@@ -639,6 +687,8 @@ def _slice(ctx, cfg, n_pick, actions, via_tlc=False, min_cases=50, always=None):
             key = {"fn": FN.get(last.get("kind", last["op"]), last["op"]), "clause": why, "cls": c["cls"]}
             if obs[-1].get("fault"):
                 key["exc"] = obs[-1]["fault"].partition(":")[2]
+            if isinstance(obs[-1].get("names"), list):
+                key["ns"] = len(obs[-1]["names"])
             ctx.violation(key,
                           {"direction": "spec->code", "case": c, "observed": obs[-1], "expected": c["exp"],
                            "tlc_cfg": "RSysGraph_MC_%s.cfg" % cfg})
@@ -726,6 +776,7 @@ def _rand_make(rng, with_comp=False):
         opt["chk"] = rng.choice(["nodup", "none"])
         if rx and rng.random() < 0.5:
             rx = rx + [rx[0]]
+    opt["alias"] = mode in ("odict", "dict") and rng.random() < 0.3
     return {"op": "Make", "rx": rx, "mode": mode, "given": given, "comp": comp, "opt": opt}
 
 
@@ -748,7 +799,7 @@ def gen_history(arg):
             return hist, obs
         for _ in range(rng.randint(1, 3)):
             c0 = {"c": {s: rng.randint(0, 9) for s in w.ws[0].substances}, "den": rng.choice([1, 1, 2, 4, 8]),
-                  "form": rng.choice(["dict", "list"]),
+                  "form": rng.choice(["dict", "list", "array", "minfn"]),
                   "skip": rng.choice([["0"], ["0"], [], ["1"], ["0", "8"], ["6", "0"], ["8"]])}
             if not do({"op": "Query", "i": 1, "kind": "bounds", "arg": c0}):
                 break
@@ -793,7 +844,9 @@ def gen_history(arg):
             elif x < 0.62:
                 h = {"op": "Query", "i": i, "kind": "graph", "arg": []}
             elif x < 0.70:
-                h = {"op": "Query", "i": i, "kind": "dot", "arg": {"inact": rng.random() < 0.5, "rref0": rng.randint(0, 3)}}
+                h = {"op": "Query", "i": i, "kind": "dot", "arg": {"inact": rng.random() < 0.5, "rref0": rng.randint(0, 3),
+                                                               "rprefix": rng.choice(["r", "r", "rxn", "R_"]),
+                                                               "colors": rng.choice(["default", "custom"])}}
             elif x < 0.78:
                 if not names:
                     continue
@@ -810,7 +863,8 @@ def gen_history(arg):
                 y = {s: int(sum(k[ri] * int(net[ri][ci]) for ri in range(sys_.nr))) for ci, s in enumerate(keys)}
                 ko = list(keys)
                 rng.shuffle(ko)
-                h = {"op": "Query", "i": i, "kind": "yields", "arg": {"k": k, "y": y, "den": rng.choice([1, 2, 4]), "korder": ko}}
+                h = {"op": "Query", "i": i, "kind": "yields", "arg": {"k": k, "y": y, "den": rng.choice([1, 2, 4]), "korder": ko,
+                                                                   "atol": rng.choice(["default", "loose"])}}
             elif x < 0.96:
                 h = {"op": "Query2", "i": i, "j": j, "kind": rng.choice(["add", "eq"])}
             else:
